@@ -29,6 +29,11 @@ RULE = ("operation scripts for a private libdbus client connection (1..4 threads
         "the client is not reading; the harness reads only after it saw hangup and unread bytes pending on the socket (poll/FIONREAD), observes "
         "through notify / get_completed + steal_reply after dispatching (optionally one blocking wait as first reader) - every answered call "
         "completes with that reply; "
+        "plus the serial part (checks/c17ser.py, harness/h_serial.c): hook H4 puts the connection's serial counter at a chosen value (70 % of "
+        "the cases so that the 32-bit wrap happens inside the case) and 1..4 threads send signals, method returns and calls through every "
+        "sending entry point (send with/without out parameter, preallocated send, send_with_reply, send_with_reply_and_block); the peer "
+        "records what arrives (independent codec) and answers each call with the call's token - no serial 0 on the wire or from the API, no "
+        "serial twice in a case, API value = wire value, every call completed by its own reply; "
         "each script runs on an ASan+UBSan build and on a TSan build; the completion log (atomic sequence numbers) is "
         "judged by vf/models/pending_client.py. distinct = per-call (how it completed, cancel relation, observers, "
         "timeout class, what the peer sent, connection lost, threads>1, flavor)")
@@ -852,6 +857,9 @@ def _watchdog(case):
 
 
 def _worker(args):
+    if args[0] == "serial":
+        from checks import c17ser
+        return c17ser.worker(args[1:])
     seed, shard, count, flavor, exe = args
     rng = gen.rng_for(seed, PROP, shard)
     part = report.Part()
@@ -934,12 +942,21 @@ def run(tier, seed, replay=None, scale=1.0):
     r = report.Run(PROP, tier, seed=seed)
     r.rule = RULE
     exes = {}
+    sexes = {}
     for flavor in ("asan", "tsan"):
         b = build.build(flavor)
         r.builds.append(b.info())
         exes[flavor] = b.harness("h_pending")
+        sexes[flavor] = b.harness("h_serial")
     if replay:
         w = json.load(open(replay))["witness"]
+        if w.get("serial_part"):
+            from checks import c17ser
+            part = report.Part()
+            c17ser.replay(part, sexes, w)
+            part.signatures |= set([("serial-replay", 0), ("serial-replay", 1)])
+            r.merge(part)
+            return r.finish()
         case = w["case"]
         flavors = [w["flavor"]] if w.get("flavor") in exes else ["asan", "tsan"]
         part = report.Part()
@@ -971,6 +988,12 @@ def run(tier, seed, replay=None, scale=1.0):
     for i in range(nshards):
         for flavor in ("asan", "tsan"):
             shards.append((seed, i, per, flavor, exes[flavor]))
+    # serial part (checks/c17ser.py): serials around the 32-bit wrap of the counter, every sending entry point, 1..4 threads
+    stotal = int((640 if tier == "quick" else 16000) * scale)
+    snsh = 8 if tier == "quick" else 32
+    for i in range(snsh):
+        for flavor in ("asan", "tsan"):
+            shards.append(("serial", seed, i, max(1, stotal // (2 * snsh)), flavor, sexes[flavor]))
     spread_max = 0
     for part in report.run_sharded(_worker, shards):
         spread_max = max(spread_max, getattr(part, "mb_spread_max", 0))
@@ -992,6 +1015,14 @@ def run(tier, seed, replay=None, scale=1.0):
     r.require("completed:peer-return", 300 if full else 1)
     r.require("completed:local-timeout", 100 if full else 1)
     r.require("serials-checked", 2000 if full else 1)
+    r.require("serial-part:cases:asan", 200 if full else 1)
+    r.require("serial-part:cases:tsan", 200 if full else 1)
+    r.require("serial-part:cases-that-passed-the-wrap:st", 60 if full else 1)
+    r.require("serial-part:cases-that-passed-the-wrap:mt", 60 if full else 1)
+    r.require("serial-part:calls-in-wrapping-cases", 500 if full else 1)
+    r.require("serial-part:calls-completed-with-own-reply", 1000 if full else 1)
+    for _op in "snprcb":
+        r.require("serial-part:op:" + _op, 200 if full else 1)
     r.require("timers-fired", 50 if full else 1)
     r.require("block", 100 if full else 1)
     r.require("swrb", 100 if full else 1)
